@@ -79,7 +79,7 @@ def make_items(ctx, only=None):
         if name in TU_DOCS:
             if TU_DOCS[name] == '@GEN@':
                 # a three-corpus group assembled from pool documents
-                parts = [open(doc(n)[0], 'rb').read().decode() for n in ('tiny_v0', 'shapes_v0', 'alias_v1')]
+                parts = [open(doc(n)[0], 'rb').read().decode().replace('type-id-', 'type-id-%s' % 'abc'[i]) for i, n in enumerate(('tiny_v0', 'shapes_v0', 'alias_v1'))]   # ids unique across the group
                 ind = lambda t: ''.join('  ' + l + '\n' for l in t.splitlines())
                 d = os.path.join(ctx.rundir, 'docs'); os.makedirs(d, exist_ok=True)
                 p = os.path.join(d, 'group-three.xml')
